@@ -72,6 +72,12 @@ static GLOBAL: Counting = Counting;
 macro_rules! vcheck { ($c:expr, $l:expr) => {{ let c: bool = $c; let _ = crate::vs::bool(); if !c { println!("FAILED-CHECK {}", $l); } }}; }
 macro_rules! vcover { ($c:expr, $l:expr) => { if $c { println!("COVERED {}", $l); } }; }
 
+/// C16 natively: the real parsers on the whole frame
+macro_rules! c16arm { ($n:ident) => { (
+    |e: Vec<redis_sim::redis::RespValue>| redis_sim::redis::Command::from_resp(&redis_sim::redis::RespValue::Array(Some(e))),
+    |e: Vec<redis_sim::redis::RespValueZeroCopy>| redis_sim::redis::Command::from_resp_zero_copy(&redis_sim::redis::RespValueZeroCopy::Array(Some(e))),
+) }; }
+
 pub mod coll { pub use std::collections::{HashMap, HashSet}; }
 pub mod conn;
 /// native counterpart of the Kani crate's `env`: the real handler answers
